@@ -175,6 +175,38 @@ def fastDilate (A : Img Int) (bshape : List Nat) (bc : Array Int) : Array Int :=
       | _ => out) init
   | _ => A.data
 
+/-! the dilation branch as the row loops are written -/
+
+/-- `out[j] |= b` on a 0/1 cell of the flat output -/
+def orInto (res : Array Int) (j : Nat) (b : Int) : Array Int :=
+  res.setIfInBounds j (if res.getD j 0 != 0 || b != 0 then 1 else 0)
+
+/-- one (row, offset) pass of the dilation branch: `orow` is the flat start of the output row
+    `res.data(y + dy)`, `irow` of the input row `array.data(y)`; the border loop of `|dx|` iterations ORs
+    the pixels that would leave the image into the edge cell, then the main loop of `n = Nx − |dx|`
+    iterations walks the two (shifted) row pointers. -/
+def fastDilateRow (data : Array Int) (Nx orow irow : Nat) (dx : Int) (res : Array Int) : Array Int :=
+  let n := Nx - dx.natAbs
+  if dx > 0 then
+    let res := (List.range dx.toNat).foldl (fun res i =>
+      orInto res (orow + (Nx - 1)) (data.getD (irow + (Nx - i - 1)) 0)) res
+    (List.range n).foldl (fun res i => orInto res (orow + dx.toNat + i) (data.getD (irow + i) 0)) res
+  else if dx < 0 then
+    let res := (List.range (-dx).toNat).foldl (fun res i => orInto res orow (data.getD (irow + i) 0)) res
+    (List.range n).foldl (fun res i => orInto res (orow + i) (data.getD (irow + (-dx).toNat + i) 0)) res
+  else
+    (List.range n).foldl (fun res i => orInto res (orow + i) (data.getD (irow + i) 0)) res
+
+/-- dilation branch of `fast_binary_dilate_erode_2d` (as repaired), loop by loop. -/
+def fastDilateLoops (A : Img Int) (bshape : List Nat) (bc : Array Int) : Array Int :=
+  match A.shape with
+  | [Ny, Nx] =>
+    let init : Array Int := if centreSet bshape bc then A.data else Array.replicate A.size 0
+    (List.range Ny).foldl (fun res y =>
+      (fastPositions Nx bshape bc true).foldl (fun res d =>
+        fastDilateRow A.data Nx (fastRow Ny y d.1 * Nx) (y * Nx) d.2 res) res) init
+  | _ => A.data
+
 /-! ### `get_structuring_elem` for `None`/integer arguments, and `disk` -/
 
 /-- the ℓ1 ball of radius `r` in `{0,1,2}^d` as a 0/1 array (C order) -/
@@ -211,9 +243,10 @@ def handle (a : Args) : String :=
     let spec := (allPos shape).map (dilateSpecAt dt A sup)
     let model := (dilateModel dt A sup).toList
     let fast := if dt.isBool && shape.length == 2 then (fastDilate A bshape bc).toList else model
+    let loops := if dt.isBool && shape.length == 2 then (fastDilateLoops A bshape bc).toList else model
     let regular := starShaped bshape (members.map (·.1)) && flatHeights (members.map (·.2))
     let obs := (allPos shape).map fun q => regular || boxInterior shape bshape q
-    s!"spec={showInts spec} model={showInts model} fast={showInts fast} obs={showBools obs}"
+    s!"spec={showInts spec} model={showInts model} fast={showInts fast} loops={showInts loops} obs={showBools obs}"
   | "cross" => s!"elem={showInts (crossElem (a.nat "d") (a.int "r")).toList}"
   | "disk" => s!"elem={showInts (diskElem (a.nat "d") (a.nat "r")).toList}"
   | k => s!"error=unknown-kind-{k}"
